@@ -768,3 +768,8 @@ func cmpV(op string, a, b *AVal) *AVal {
 
 // Reduce re-normalises a hand-built abstract integer (interval ↔ bits).
 func Reduce(v *AVal) *AVal { return v.reduce() }
+
+// AddConst returns v + k in v's type (for building relational input cells such as s and s+d).
+func AddConst(v *AVal, k int64) (*AVal, bool) {
+	return addV(v, ConstAInt(bi(k), v.W, v.S), v.W, v.S)
+}
